@@ -1244,8 +1244,8 @@ def run_stored(cases, objs, pyobjs):
     for i, cs in enumerate(cases):
         fn = env[f"f_{i}"]
         for lo, o in zip(objs, pyobjs):
-            if not py_member(o, cs[0]):
-                continue
+            if not py_member(o, cs[0]) or (cs[1] != ("truthy",) and not py_cond_ok(cs[1], o)):
+                continue  # outside V, or outside the property's quantifier (`True == 1`: equal but of another type)
             for flag in (True, False):
                 for n in (0, 2):
                     del env["_REC"][:]
